@@ -565,11 +565,14 @@ pub fn main_shard(runs: &[(&str, RunFn)]) {
         }
     }));
     let mut report = ShardReport::default();
+    // which enum is being exercised: read by the driver when this process dies of a signal (stack overflow, abort)
+    let cur = format!("{}.cur", args[2]);
     for spec in &input.specs {
         let run = match runs.iter().find(|(n, _)| *n == spec.name) {
             Some((_, r)) => *r,
             None => continue, // removed from this build
         };
+        let _ = std::fs::write(&cur, &spec.name);
         let seed = vmodel::derive_seed(input.seed, &input.property, vmodel::fnv(spec.name.as_bytes()), 0);
         let mut ctx = Ctx {
             input: &input,
@@ -586,5 +589,6 @@ pub fn main_shard(runs: &[(&str, RunFn)]) {
         ctx.rep.nontrivial = ctx.nontrivial_set.len() as u64;
         report.enums.push(ctx.rep);
     }
+    let _ = std::fs::remove_file(&cur);
     std::fs::write(&args[2], serde_json::to_string(&report).unwrap()).expect("write report");
 }
